@@ -277,7 +277,7 @@ class XMLResourceLoader:
                 else:
                     yield event, node  # comment or pi node
 
-        except SyntaxError as err:
+        except (SyntaxError, LookupError, ValueError) as err:
             raise XMLResourceParseError("invalid XML syntax: {}".format(err)) from err
         finally:
             self._lazy_lock.release()
@@ -325,7 +325,7 @@ class XMLResourceLoader:
                     end_ns = True
                 elif event == 'end':
                     remaining_levels += 1
-        except SyntaxError as err:
+        except (SyntaxError, LookupError, ValueError) as err:
             raise XMLResourceParseError("invalid XML syntax: {}".format(err)) from err
 
     def _clear(self, elem: ElementType,
